@@ -165,7 +165,7 @@ def _run(fe, kind, u1, u2, shared):
             tv = np.asarray(tv, dtype=float).ravel()
         return st, tv
     except Exception as ex:  # noqa
-        return ('raise', C.exc_class(ex) + ':' + str(ex)[:60]), None
+        return ('raise', C.exc_class(ex)), None
 
 
 def run(case):
@@ -177,11 +177,11 @@ def run(case):
     detail = 'one object: %s ; fresh copies: %s' % (C.fmt(a), C.fmt(b))
     if a[0] == 'raise' or b[0] == 'raise':
         if a[0] == 'raise' and b[0] == 'raise':
-            res.update(status='unsupported', outcome='both_raise:' + a[1].split(':')[0], detail=detail)
+            res.update(status='unsupported', outcome='both_raise:' + a[1].split('(')[0], detail=detail)
             return res
         side = 'shared' if a[0] == 'raise' else 'fresh'
         who = a if a[0] == 'raise' else b
-        res.update(status='violation', sig='%s|%s_raises:%s' % (tag, side, who[1].split(':')[0]), detail=detail)
+        res.update(status='violation', sig='%s|%s_raises:%s' % (tag, side, who[1]), detail=detail)
         return res
     c = C.compare_status(a, b, C.TOL_CONE)
     if c == 'vacuous':
